@@ -282,9 +282,21 @@ class FnTr:
                     collect_locals(c)
         collect_locals(self.body)
 
+        saved_env = dict(self.env)
+
         def walk(n):
             if not isinstance(n, dict):
                 return
+            if n.get("kind") == "VarDecl" and n["type"]["qualType"].rstrip().endswith("*") and n.get("inner"):
+                # a local that is just another name of (part of) the object - `T *impl = (T *)obj;`,
+                # `T *list = obj->list;` - must resolve in the stores that follow (bound for this prescan only)
+                init = [c for c in n["inner"] if "kind" in c and c["kind"] not in ("FullComment",) and not c["kind"].endswith("Attr")]
+                if init and n.get("name") not in self.env:
+                    e = _strip(init[-1])
+                    if e.get("kind") in ("DeclRefExpr", "MemberExpr", "UnaryOperator", "ArraySubscriptExpr"):
+                        pth0 = self.path_of(e)
+                        if pth0 is not None:
+                            self.env[n["name"]] = ("obj", pth0)
             if n.get("kind") == "BinaryOperator" and n.get("opcode") == "=":
                 l, r = _strip(n["inner"][0]), _strip(n["inner"][1])
                 if r.get("kind") == "DeclRefExpr" and r["referencedDecl"].get("kind") == "VarDecl" \
@@ -306,6 +318,7 @@ class FnTr:
             for c in n.get("inner", []) or []:
                 walk(c)
         walk(self.body)
+        self.env = saved_env
 
     def local_path(self, name):
         return self.alias.get(name, ("$" + self.fn["name"], name))
@@ -402,7 +415,14 @@ class FnTr:
         if k == "ConditionalOperator":
             c = self.ival(n["inner"][0])
             if c is None:
-                return None
+                # a scalar condition the arguments do not decide: the scenario's hint for that condition applies to
+                # `c ? a : b` exactly as it applies to `if (c)`
+                key = self.text_key(n["inner"][0])
+                if key in self.sc.hints:
+                    c = 1 if self.sc.hints[key] else 0
+                    self.sc.notes.append("%s: condition `%s` taken as %s (scenario hint)" % (self.fn["name"], key, self.sc.hints[key]))
+                else:
+                    return None
             return self.ival(n["inner"][1 if c else 2])
         return None
 
@@ -521,7 +541,11 @@ class FnTr:
         q = n.get("type", {}).get("qualType", "")
         is_ptr = q.rstrip().endswith("*") and "(*)" not in q
         is_fd = cmpv == -1 and q.strip() in ("int", "muggle_event_fd", "muggle_socket_t")   # descriptor against -1 / INVALID
-        if self.sc.collect and n.get("kind") in ("MemberExpr", "ArraySubscriptExpr") and (is_ptr or is_fd) and len(pth) >= 2:
+        # the tested l-value names a member of the object: written as obj->f, obj->a[i], or as *out where the helper's
+        # parameter `out` is bound to &obj->f (a helper that hands an owned pointer back through an out-parameter)
+        names_member = n.get("kind") in ("MemberExpr", "ArraySubscriptExpr") or \
+            (n.get("kind") == "UnaryOperator" and n.get("opcode") == "*" and self.is_object(n["inner"][0]))
+        if self.sc.collect and names_member and (is_ptr or is_fd) and len(pth) >= 2:
             self.sc.pending.add(pth)
         return False
 
